@@ -13,6 +13,7 @@ class TypeGen:
         self.rng = rng
         self.tag = 0
         self.user = list(range(NBUILTIN, w.n))
+        self.npred = NPRED + len(getattr(w, "deferred", []))
         self.generic_user = [NBUILTIN + i for i, u in enumerate(w.desc["user"]) if u["kind"] == "generic"]
         self.kinds = kinds or ["cls", "gen", "type", "union", "inter", "exactly", "strict", "hasm", "pred", "lit", "prod", "fdep"]
         self.exact_memo = {}
@@ -66,9 +67,10 @@ class TypeGen:
             self.exact_memo[key] = d
             return d
         if kind == "pred":
-            k = rng.randrange(NPRED)
+            k = rng.randrange(self.npred) if rng.random() < 0.6 else rng.randrange(NPRED, self.npred) if self.npred > NPRED else rng.randrange(NPRED)
             key = (kind, k)
-            if key in self.exact_memo and rng.random() < 0.5:
+            # a Deferred[...] type is one object per reference (identity equality): always the same tag
+            if key in self.exact_memo and (k >= NPRED or rng.random() < 0.5):
                 return self.exact_memo[key]
             d = ["pred", self.newtag(), k]
             self.exact_memo[key] = d
